@@ -10,6 +10,7 @@ import pandas as pd
 from sktime.forecasting.base._base import DEFAULT_ALPHA
 from sktime.forecasting.base._sktime import _OptionalForecastingHorizonMixin
 from sktime.forecasting.base._sktime import _SktimeForecaster
+from sktime.utils.validation.forecasting import check_y_X
 
 
 class _StatsModelsAdapter(_OptionalForecastingHorizonMixin, _SktimeForecaster):
@@ -39,6 +40,9 @@ class _StatsModelsAdapter(_OptionalForecastingHorizonMixin, _SktimeForecaster):
         """
         # statsmodels does not support the pd.Int64Index as required,
         # so we coerce them here to pd.RangeIndex
+        # validate first: coercing the index must not paper over an empty series
+        # or over exogenous data whose index differs from the target's
+        check_y_X(y, X)
         if isinstance(y, pd.Series) and type(y.index) == pd.Int64Index:
             y, X = _coerce_int_to_range_index(y, X)
 
